@@ -823,7 +823,11 @@ func applySwaps(actions []*balancer.SwapNodeAction, cur map[int64]model.ShardMet
 			if second {
 				k += ":later-swap-of-same-shard-in-round"
 			}
-			out = append(out, viol{k, desc + ": `To` is already a member (the proposal was computed from the ensemble as it was before the round), the ensemble ends up with a duplicate"})
+			why := ""
+			if second {
+				why = " (the proposal was computed from the ensemble as it was before the round)"
+			}
+			out = append(out, viol{k, desc + ": `To` is already a member" + why + ", the ensemble ends up with a duplicate"})
 			bad = true
 		}
 		if ti := srvIdx(to); ti < 0 || ti >= n {
